@@ -721,6 +721,7 @@ func (vc *VC) cutLoop(act *Act, h *ssa.BasicBlock, st *State, phiVals map[*ssa.P
 		}
 	} else if (lf.writesHeap || lf.calls) && !lf.typed.all {
 		vc.havocTyped(act, ns, st, lf)
+		vc.havocLocals(ns, lf, act) // locals the body stores to are written whatever their type
 		vc.havocLoopGhosts(ns, lf)
 	} else if lf.writesHeap || lf.calls {
 		vc.used["loop havoc (everything): "+lf.typed.why] = true
@@ -1795,5 +1796,11 @@ func (vc *VC) fieldStoreHook(act *Act, st *State, i *ssa.Store, p PtrV) {
 	if fa, ok := i.Addr.(*ssa.FieldAddr); ok {
 		key := vc.storeWhat(fa)
 		vc.siteCheck(act, st, "store "+key, i, nil, []Val{vc.val(act, i.Val)}, []types.Type{i.Val.Type()}, vc.val(act, fa.X), fa.X.Type())
+	}
+	if ia, ok := i.Addr.(*ssa.IndexAddr); ok {
+		if sl, ok := ia.X.Type().Underlying().(*types.Slice); ok {
+			sh := "storeelem " + types.TypeString(sl.Elem(), func(p *types.Package) string { return p.Name() })
+			vc.siteCheck(act, st, sh, i, nil, []Val{vc.val(act, i.Val), vc.val(act, ia.Index)}, []types.Type{i.Val.Type(), ia.Index.Type()}, vc.val(act, ia.X), ia.X.Type())
+		}
 	}
 }
